@@ -171,6 +171,38 @@ def innermost_pydsdl_frame(exc: BaseException) -> str:
     return best
 
 
+def raised_inside_pydsdl(exc: BaseException) -> bool:
+    tb = exc.__traceback__
+    last = None
+    while tb is not None:
+        last = tb.tb_frame.f_code.co_filename
+        tb = tb.tb_next
+    return last is not None and "/pydsdl/" in last and not last.startswith(str(VERIF))
+
+
+def guarded(mod, case, R: "Acc") -> None:
+    """
+    Run one case. An exception that escapes from inside the implementation (innermost frame under pydsdl/) while the
+    check was not expecting any is a violation of the property being checked (the answer is not the reference's);
+    an exception raised by harness code is a harness error and aborts the run.
+    """
+    try:
+        mod.check_case(case, R)
+    except CaseTimeout as ex:
+        R.evaluations += 1
+        R.violation("timeout", "terminates within the watchdog", case, observed=str(ex))
+    except Exception as ex:  # noqa
+        if not raised_inside_pydsdl(ex):
+            raise
+        R.evaluations += 1
+        R.violation(
+            "impl-exception:%s@%s" % (type(ex).__name__, innermost_pydsdl_frame(ex)),
+            "the implementation answers every query of the explored space (no exception escapes)",
+            case,
+            observed=traceback.format_exc()[-1500:],
+        )
+
+
 # ---------------------------------------------------------------------------------------------------------------
 def _load(check_id: str):
     return importlib.import_module("mc.checks." + check_id.lower())
@@ -196,7 +228,7 @@ def _worker_run(arg):
     t0 = time.time()
     try:
         for case in mod.cases(shard, tier):
-            mod.check_case(case, R)
+            guarded(mod, case, R)
     except Exception:  # harness failure inside a shard: report, never swallow
         return idx, None, traceback.format_exc(), time.time() - t0
     return idx, R, None, time.time() - t0
@@ -349,7 +381,7 @@ def run_replay(check_id: str, path: str) -> int:
         mod.worker_init()
     blob = json.loads(Path(path).read_text())
     R = Acc()
-    mod.check_case(blob["case"], R)
+    guarded(mod, blob["case"], R)
     ws.cleanup_all()
     print("replay of %s: case=%s" % (path, canon(blob["case"])[:400]))
     for v in R.violations:
